@@ -37,6 +37,13 @@ def generate(run_seed, tier, index):
         # at most three filter runs per program (cost)
         if sum(1 for o in ops if o[0].startswith('filters.')) >= 3:
             pool = cheap
+        if ops and r.random() < 0.25:
+            # the same callable again, with other arguments (interaction through hidden
+            # state needs two calls of one function in one program)
+            prev = [o[0] for o in ops if not o[0].startswith('filters.')]
+            if prev:
+                ops.append([prev[int(r.integers(len(prev)))], int(r.integers(2 ** 31))])
+                continue
         ops.append([pool[int(r.integers(len(pool)))], int(r.integers(2 ** 31))])
     return dict(format=1, kind='program', world_seed=int(r.integers(2 ** 31)),
                 initial_size=[4, 16, 10000][int(r.integers(3))], ops=ops,
@@ -143,7 +150,7 @@ def _materialise_args(call, values, kvalues, forms):
 
 def _draw_forms(call, r):
     forms = {}
-    if call.row0 and r.random() < 0.2:
+    if call.row0 and r.random() < call.row0_p:
         for i, a in enumerate(call.args):
             if a.kind in ('vec', 'n3', 'n3a', 's33'):
                 forms[i] = 'row0'
